@@ -28,7 +28,7 @@ CLAIMED = {
         'integral of eps^T F eps >= 0, plate / w-only / cylindrical / conical, full width and sub-interval; abd_weight_psd links the hypothesis to C01). '
         'The translator IR is interpreted on random panels against Panel.calc_k0(finalize=False) of the '
         'running binaries (V), and an independent energy-Hessian oracle (operator tables x exact Bardell integrals) is '
-        'compared with calc_k0 incl. pre-load, symmetry, PSD and sub-interval additivity (implementation arm). PANEL GLUE: Panel._rebuild / get_size / calc_k0 / calc_kG0 / calc_kM / calc_kA / calc_cA / calc_kT have a hand model (Model/PanelGlue.lean: which kernel is called with which arguments in which order, None vs 0.0, defaults, 20 error kinds, the combination sum / finalize / skew) tied to the running _panel.py by a recorded-kernel-call correspondence through the C02 driver (names, every argument as exact rational, r / alpharad the panel carries at the call, exception class, post-state, returned matrix), with theorems calc_k0_dispatch (strip kernel iff BOTH y1 and y2 are given - also y1 = 0.0; initial-stress kernel iff a pre-load component is a non-zero number, same domain, argument order), glue_placement, calc_kA / calc_cA_dispatch and calc_k0_eq_energy_hessian_plus_prestress_plate/_cpanel (kernel hypotheses discharged by the regenerated-kernel theorems).',
+        'compared with calc_k0 incl. pre-load, symmetry, PSD and sub-interval additivity (implementation arm). PANEL GLUE: Panel._rebuild / get_size / calc_k0 / calc_kG0 / calc_kM / calc_kA / calc_cA / calc_kT have a hand model (Model/PanelGlue.lean: which kernel is called with which arguments in which order, None vs 0.0, defaults, 20 error kinds, the combination sum / finalize / skew) tied to the running _panel.py by a recorded-kernel-call correspondence through the C02 driver (names, every argument as exact rational, r / alpharad the panel carries at the call, exception class, post-state, returned matrix), with theorems calc_k0_dispatch (strip kernel iff BOTH y1 and y2 are given - also y1 = 0.0; initial-stress kernel iff a pre-load component is a non-zero number, same domain, argument order), glue_placement, calc_kA / calc_cA_dispatch and calc_k0_eq_energy_hessian_plus_prestress_{plate,cpanel,platew,kpanel} (kernel hypotheses discharged by the regenerated-kernel theorems; conical model: sum over its constant-radius sections, any number of them).',
    note='Trusted: Lean kernel, Mathlib, translator (validated by V each run), operator tables, abstract J tied to C tables '
         'by C10 (the PSD theorems take the integrals as exact real integrals of products of continuous basis functions), Cython build not verified '
         '(V vs in-tree .so), the hand model of the Python glue is tied on explored states only (line coverage of the modelled functions gated), rounding not modelled.',
@@ -56,7 +56,7 @@ CLAIMED = {
         'an oracle, total mass of a rigid translation, positive definiteness on active amplitudes and frequency invariance '
         'under a move of the reference surface. A genuine defect (wrong sign passed by Panel.calc_kM) was repaired (fix: ca9efb9). '
         'TOTAL MASS is a theorem: for the exact real integrals of the all-free Bardell basis (Spec/BardellIntegrals.lean) a rigid translation u, v or w = 1 sees '
-        'c^T M c = mu h a b (strip: mu h a (y2-y1)) for all m, n >= 3, any placement and ANY offset (total_mass_*), and the PSD theorems hold for that basis with no '
+        'c^T M c = mu h a b (strip: mu h a (y2-y1); conical panel: the sum over its sections = mu h a b (1 - a sin(alpha)/(2r)), the exact developed area) for all m, n >= 3, any placement and ANY offset (total_mass_*), calc_kM_eq_kinetic_hessian_{plate,cpanel,platew,kpanel} for the glue, and the PSD theorems hold for that basis with no '
         'hypothesis on the integrals left (kM_matrix_psd_bardell_*).',
    note='As C02; LAPACK eigh trusted for the invariance predicate.',
    technique='Lean 4 proof over regenerated model + translation validation + oracle', ref='4/C04'),
@@ -120,12 +120,12 @@ CLAIMED = {
         'symmetric matrix are the min-max values of the Rayleigh quotient; the same for pencils K v = lambda M v with M positive definite through a whitening congruence, '
         'and for buckling pencils (K + lambda KG) v = 0 with K positive definite and KG indefinite; the lists are exactly the spectra) and with it one-sided Cauchy '
         'interlacing for principal sub-matrices / sub-pencils: ritz_eigenvalues_monotone, ritz_frequencies_monotone, ritz_buckling_monotone (k-th smallest frequency / '
-        'positive multiplier of the larger model <= that of the smaller), instantiated on the regenerated plate kernels (plate_frequencies_monotone, plate_buckling_monotone); '
+        'positive multiplier of the larger model <= that of the smaller), instantiated on EVERY regenerated analytic panel kernel ({plate,cpanel,platew,kpanel}_{frequencies,buckling}_monotone and their _strip_ forms for the sub-interval kernels; conical panel for any number of sections); '
         'the older min-max monotonicity theorems (minmax_monotone, minmax_chain) stay. The closed-form clause (never below / converging to the double-sine buckling loads '
         'and frequencies) is a statement about the continuum problem and is NOT decided by proof: it is evaluated numerically on the implementation THROUGH the package\'s analyses '
         '(Panel.lb / Panel.freq / analysis.lb / analysis.freq, sparse and dense, three unit systems, sweeps on one object, very thin panels with rich bases).',
    note='PARTIAL: the closed-form / convergence clause is exploration-level (see DESIGN.md section 6); positive definiteness of the larger model\'s mass / stiffness matrix is a '
-        'hypothesis of the monotonicity theorems (the property\'s own premise); the instantiation on regenerated kernels covers the flat plate; that LAPACK / ARPACK return the '
+        'hypothesis of the monotonicity theorems (the property\'s own premise); the instantiation on regenerated kernels covers single panels at row0 = 0 (no assemblies); that LAPACK / ARPACK return the '
         'lowest eigenvalues in order is the numerical contract of C05 / C06.',
    technique='Lean 4 proof (Courant-Fischer, interlacing, index embedding) over regenerated model + numeric evaluation of the continuum clause through the package\'s analyses', ref='4/C15'),
  'C19': dict(
